@@ -126,8 +126,10 @@ def run(ctx, canary=False):
                 "non-trivial = distinct (structure, tree, zero pattern, schedule, shift) with >= 2 cliques")
     cat = catalogue(ctx.tier)
     structs = []
+    kept = []     # catalogue entries that made it into the TLC constant (a structure whose every build is broken is reported and skipped)
     builds = {}   # (sid, treekey) -> list of (order, dom_order)
-    for sid, s in enumerate(cat, 1):
+    for s in cat:
+        sid = len(structs) + 1
         V = s["ord"]
         orders = list(itertools.permutations(V))
         if len(orders) > 24:
@@ -161,6 +163,7 @@ def run(ctx, canary=False):
             zsets = list(dict.fromkeys(zsets))
         for tk in trees:
             builds[(sid, tk[0], tk[1])] = builds.get((sid, tk[0], tk[1]), []) + trees[tk]
+        kept.append(s)
         structs.append({"V": set(V), "sz": s["sz"], "ord": V, "pots": s["pots"],
                         "trees": [{"N": tk[0], "T": tk[1], "home": list(tk[2])} for tk in trees],
                         "zsets": zsets})
@@ -178,13 +181,13 @@ def run(ctx, canary=False):
                 i, ", ".join(to_tla(s) if j == i else "[trees |-> {}, zsets |-> {}]" for j, s in enumerate(structs))))
         cfg = "CONSTANTS\n  Structs <- MCStructs\n  EmitRuns = TRUE\nSPECIFICATION Spec\n%s\nCHECK_DEADLOCK FALSE\n" % (
             "\n".join("INVARIANT " + x for x in INVS))
-        return ctx.tlc(mc, cfg, name="BP_%s" % cat[i]["name"], workers=2, extra_modules=("bp",), timeout=14400, coverage=(i == 0))
+        return ctx.tlc(mc, cfg, name="BP_%s" % kept[i]["name"], workers=2, extra_modules=("bp",), timeout=14400, coverage=(i == 0))
     with ThreadPoolExecutor(8) as ex:
         results = list(ex.map(one, range(len(structs))))
     for i, r in enumerate(results):
         if r.violated:
             ctx.violation("%s violated in BeliefProp.tla on structure %s with a junction tree built by the implementation "
-                          "(message passing on that tree is not exact in ANY schedule)" % (r.violated, cat[i]["name"]),
+                          "(message passing on that tree is not exact in ANY schedule)" % (r.violated, kept[i]["name"]),
                           {"tlc": r.trace_text()}, {"kind": "design"})
         emits += r.emits
     ctx.extra["spec_behaviours"] = len(emits)
@@ -197,7 +200,7 @@ def run(ctx, canary=False):
     nrep = 0
     for e in emits[:budget]:
         sid = e["sid"]
-        s = cat[sid - 1]
+        s = kept[sid - 1]
         N = fs(fs(n) for n in e["nodes"])
         Tt = fs(fs((fs(a), fs(b))) for a, b in e["tree"])
         cands = builds.get((sid, N, Tt))
@@ -213,7 +216,7 @@ def run(ctx, canary=False):
         nrep += 1
     if emits:
         e = emits[0]
-        ctx.sample({"spec behaviour": {"structure": cat[e["sid"] - 1]["name"], "zero_cells": e["zs"],
+        ctx.sample({"spec behaviour": {"structure": kept[e["sid"] - 1]["name"], "zero_cells": e["zs"],
                                        "schedule": [[x["i"], x["j"]] for x in e["hist"]], "Z": e["Z"]}})
 
     # ---- code -> spec (H1 traces of the code's own schedule)
